@@ -51,6 +51,15 @@ Theorem C02_eof_immediately :
 Proof. exact eof_immediately. Qed.
 Print Assumptions C02_eof_immediately.
 
+(* ... and the input is not withheld while output is being produced: when poll reports stdin writable the next
+   call is the write of the next chunk, whatever the output streams report in the same round *)
+Theorem C02_writable_stdin_is_written : forall s pdl ovf cnt rin rout rerr,
+  pc s = PPoll pdl ovf -> c_in (cm s) = true -> (cnt <> 0%N \/ ovf = false) ->
+  test rin (N.lor POLLOUT (N.lor POLLHUP POLLERR)) = true ->
+  exists s', step s (RPoll cnt rin rout rerr) = (s', Call (KWrite (firstn (N.to_nat WRITE_SIZE) (c_input (cm s))))).
+Proof. exact writable_stdin_is_written. Qed.
+Print Assumptions C02_writable_stdin_is_written.
+
 Module Win.
 Import SP.Lib.WinComm SP.Proofs.WinCommProofs.
 Local Open Scope nat_scope.
